@@ -35,7 +35,8 @@ def run_check(wt, pid, tier='quick', seed='0'):
     env = dict(os.environ, VERIF_REPO=wt, VERIF_EVIDENCE_DIR=tmp + '/ev', VERIF_REPLAY_DIR=tmp + '/rp')
     t = time.time()
     r = sh(['./check', pid, '--tier', tier, '--seed', seed], cwd=VERIF, env=env, timeout=3600)
-    lines = [l for l in r.stdout.split('\n') if l.startswith(('VIOLATION', '  mechanism', 'INCONCLUSIVE', 'KNOWN'))]
+    lines = [l[:400] for l in r.stdout.split('\n') if l.startswith(('VIOLATION', '  mechanism', 'INCONCLUSIVE'))]
+    lines += [l[:120] for l in r.stdout.split('\n') if l.startswith('KNOWN')]
     shutil.rmtree(tmp, ignore_errors=True)
     return {'check': pid, 'tier': tier, 'seed': int(seed), 'rc': r.returncode, 'wall_s': round(time.time() - t, 1), 'lines': lines[:6]}
 
